@@ -31,6 +31,7 @@ func init() {
 			{ID: "C18.5", Desc: "directive names are case-folded for every letter (ONLY-IF-CACHED)", Run: func(c *Ctx) { ruleC12_1(c); renameRule(c, "C12.1", "C18.5") }, MinSites: 1},
 			{ID: "C18.6", Desc: "under only-if-cached a stored response that needs validation is not served (the decision rows of C02.1)", Run: func(c *Ctx) { ruleC02_1(c); renameRule(c, "C02.1", "C18.6") }, MinSites: 3},
 			{ID: "C18.7", Desc: "the directive collector visits every pair (only-if-cached behind a repeated directive)", Run: func(c *Ctx) { ruleCollectorVisitsEveryPair(c, "C18.7") }, MinSites: 1},
+			{ID: "C18.8", Desc: "only-if-cached is not hidden by the escape handling of the list splitter (ext=\"C:\\\\\", only-if-cached)", Run: func(c *Ctx) { ruleC12_7(c); renameRule(c, "C12.7", "C18.8"); ruleEscapeOnlyInQuotes(c, "C18.8") }, MinSites: 1},
 		},
 	})
 }
